@@ -2,7 +2,7 @@
 (* World for C05/C06: many ties, multi-digit sizes (string order differs     *)
 (* from numeric order: 9 < 10 < 100 but "10" < "100" < "9"), equal names in  *)
 (* different directories, link counts 1, 2 and 12, three distinct days.      *)
-EXTENDS WorldC02
+EXTENDS WorldC02, TLC
 
 F5(i, p, nm, sz, mt, lt) == N(i, p, "file", nm, Runs(sz, 0), 420, 0, 0, mt, lt, -3)
 D5(i, p, nm, mt) == N(i, p, "dir", nm, <<>>, 493, 0, 0, mt, 0, -3)
@@ -25,6 +25,9 @@ W5 == [nodes |-> <<
   F5(18, 9, <<"l","0","9">>, 2, Day2, 4),  F5(19, 9, <<"l","1","0">>, 2, Day2, 4),
   F5(20, 9, <<"l","1","1">>, 2, Day2, 4),
   F5(21, 5, <<"a","2">>, 10, Day1, 2),
-  D5(22, 5, <<"e">>, Day3)
+  D5(22, 5, <<"e">>, Day3),
+  \* two sizes beyond 2^24 that differ by one (equal as 32-bit floats), named so that a tie would be resolved the other way
+  F5(23, 0, <<"b","i","g","0">>, 0, Day2, 0) @@ [bigsize |-> "16777216"],
+  F5(24, 0, <<"b","i","g","1">>, 0, Day2, 0) @@ [bigsize |-> "16777217"]
 >>]
 =============================================================================
